@@ -66,7 +66,7 @@ func next(kind, name string) entry {
 		}
 	}
 	if pos >= len(tape) {
-		fail(3, "VF-TAPE-MISMATCH tape exhausted at %s %q", kind, name)
+		fail(0, "VF-TAPE-END at %s %q", kind, name)
 	}
 	e := tape[pos]
 	pos++
